@@ -486,6 +486,10 @@ class SN:
         return SN(r)
 
     def __rpow__(self, o):
+        # concrete positive base, symbolic exponent: an opaque positive value, the same for the same exponent, on the right
+        # side of 1 (all that is known about an exponential without transcendental reasoning)
+        if isinstance(o, (int, float)) and not isinstance(o, bool) and o > 0 and o == o and o != _INF:
+            return SN(exponential(o, _toreal(self.e)))
         raise Unsupported('%r ** symbolic' % (o,))
 
     def __abs__(self):
@@ -798,6 +802,19 @@ def radical(p):
         c.radicand[str(r)] = key
         c.defs[str(r)] = [r >= 0, r * r == key]
     return c.rads[ks]
+
+
+def exponential(base, x):
+    c = CTX
+    key = z3.simplify(x, som=True, sort_sums=True, mul_to_power=True)
+    ks = '%r**%s' % (float(base), key.sexpr())
+    pows = c.__dict__.setdefault('pows', {})
+    if ks not in pows:
+        r = c.fresh('pow')
+        pows[ks] = r
+        side = [r == 1] if base == 1 else ([z3.Implies(key >= 0, r >= 1), z3.Implies(key <= 0, r <= 1)] if base > 1 else [z3.Implies(key >= 0, r <= 1), z3.Implies(key <= 0, r >= 1)])
+        c.defs[str(r)] = [r > 0] + side
+    return pows[ks]
 
 
 # ---- declared variables
